@@ -8,21 +8,16 @@ import (
 	"github.com/LemoFoundationLtd/lemochain-core/network"
 	"github.com/LemoFoundationLtd/lemochain-core/network/p2p"
 
-	"verifharness/engine"
 	"verifharness/node"
 )
 
-// deliverBlock queues one BlocksMsg and, right behind it, a marker BlocksMsg holding the genesis block (always
-// stale: the loop asks StableBlock() and moves on).  The receive loop handles blocks strictly in order, so once it
-// has asked StableBlock() for the marker it is done with the block - whatever it decided to do with it.
-// Returns what the loop decided: "stale", "insert" (parent known) or "cache".
+// deliverBlock queues one BlocksMsg holding one block: see deliverBlocks.
+// Returns what the loop decided: "stale", "insert" (parent known) or "cache" ("dropped": the session was closed instead).
 func (n *nut) deliverBlock(b, marker *types.Block, what string) string {
 	from := n.r.mark()
-	n.peer.push(p2p.BlocksMsg, enc(types.Blocks{node.Copy(b, nil)}))
-	n.peer.push(p2p.BlocksMsg, enc(types.Blocks{node.Copy(marker, nil)}))
-	n.r.wait(fmt.Sprintf("the receive loop to finish %s and the marker behind it", what), func(evs []ev) bool {
-		return count(evs, from, func(e ev) bool { return e.kind == "StableBlock" && e.caller == fromRcvLoop }) >= 2
-	})
+	if !n.deliverBlocks([]*types.Block{b}, marker, what) {
+		return "dropped"
+	}
 	path, at := "stale", 0
 	n.r.mu.Lock()
 	for i := from; i < len(n.r.evs); i++ {
@@ -37,7 +32,7 @@ func (n *nut) deliverBlock(b, marker *types.Block, what string) string {
 	n.r.mu.Unlock()
 	if path == "cache" { // the parent request is written by a goroutine started after BlockCache.Add
 		h := int(b.Height())
-		n.r.wait(fmt.Sprintf("the parent request for cached %s", what), func(evs []ev) bool {
+		n.waitPeer(fmt.Sprintf("the parent request for cached %s", what), func(evs []ev) bool {
 			return count(evs, at, func(e ev) bool {
 				if e.kind != "write" || e.code != p2p.GetBlocksMsg {
 					return false
@@ -50,10 +45,44 @@ func (n *nut) deliverBlock(b, marker *types.Block, what string) string {
 	return path
 }
 
+// deliverBlocks queues ONE BlocksMsg holding the given blocks in the given order and, right behind it, a marker BlocksMsg:
+// one block nobody has seen before (a copy of the genesis block renumbered to the height above the segment, so that it is
+// neither stale nor at a height the cache has a slot for), about which the chain wrapper says "its miner is black-listed" -
+// the loop drops such a block without a trace.  The receive loop handles messages and their blocks strictly in order, so
+// once it has asked the chain anything about the marker (by hash) it is done with the message before it - whatever it
+// decided to do with each block, in whatever order it asks its questions, and however early it gave up on the message.
+// false: the manager closed the session instead of getting there.
+func (n *nut) deliverBlocks(bs []*types.Block, genesis *types.Block, what string) bool {
+	done := n.pushBlocks(bs, genesis)
+	return n.waitPeer(fmt.Sprintf("the receive loop to finish %s and reach the marker behind it", what), done)
+}
+
+// pushBlocks queues the message and its marker (see deliverBlocks) and returns the predicate "the loop is done with the message".
+func (n *nut) pushBlocks(bs []*types.Block, genesis *types.Block) func(evs []ev) bool {
+	from := n.r.mark()
+	msg := types.Blocks{}
+	for _, b := range bs {
+		msg = append(msg, node.Copy(b, nil))
+	}
+	mk := node.Copy(genesis, nil)
+	n.markers++
+	mk.Header.Height = n.tipH + 1
+	mk.Header.Time = uint32(n.markers)
+	mk.Header.Extra = fmt.Sprintf("marker %d", n.markers)
+	id := mk.Hash()
+	n.cw.setMarker(id)
+	n.peer.push(p2p.BlocksMsg, enc(msg))
+	n.peer.push(p2p.BlocksMsg, enc(types.Blocks{mk}))
+	return func(evs []ev) bool {
+		return count(evs, from, func(e ev) bool { return e.hash == id && (e.kind == "marker" || e.kind == "HasBlock") }) >= 1
+	}
+}
+
 // timerDrain waits for the manager's own queue timer: until no cached block has a known parent any more
 // and every insert it started has finished.
 func (n *nut) timerDrain() {
-	deadline := time.Now().Add(waitLimit)
+	limit := limitNow()
+	deadline := time.Now().Add(limit)
 	for {
 		n.waitSettled("timer drain")
 		s0 := n.r.mark()
@@ -70,7 +99,7 @@ func (n *nut) timerDrain() {
 			return
 		}
 		if time.Now().After(deadline) {
-			engine.Failf("sync harness: the queue timer did not drain the insertable cached blocks within %v", waitLimit)
+			expired("the queue timer did not drain the insertable cached blocks within %v: cache %v", limit, dumpBlockCache(n.bcache))
 		}
 		time.Sleep(2 * time.Millisecond)
 	}
@@ -84,6 +113,3 @@ func (n *nut) deliverBatch(batch types.Transactions, what string) {
 	n.waitTxHandlers(what)
 }
 
-func blocksMsg(b *types.Block) (p2p.MsgCode, []byte) {
-	return p2p.BlocksMsg, enc(types.Blocks{node.Copy(b, nil)})
-}
